@@ -546,12 +546,19 @@ theorem specStep_PTR (ip6 : Bytes → PtrIP) (m : Bytes) (ent : DNSEntry) (r : R
     reverse name -/
 theorem specStep_skip (ip6 : Bytes → PtrIP) (m : Bytes) (ent : DNSEntry) (r : RR) (o : Nat)
     (hskip : (r.rtype ≠ 1 ∧ r.rtype ≠ 28 ∧ r.rtype ≠ 5 ∧ r.rtype ≠ 12) ∨
-      (r.rtype = 12 ∧ parsePtrIP ip6 (trimSuffix r.name inAddrArpa) = .v6)) :
+      (r.rtype = 12 ∧ ∀ a b c d, parsePtrIP ip6 (trimSuffix r.name inAddrArpa) ≠ .v4 a b c d)) :
     (specStep ip6 m ent r, o, decide (specStep ip6 m ent r ≠ ent)) = (ent, o, false) := by
   have hs : specStep ip6 m ent r = ent := by
-    rcases hskip with ⟨n1, n28, n5, n12⟩ | ⟨h12, hv6⟩
+    rcases hskip with ⟨n1, n28, n5, n12⟩ | ⟨h12, hnv4⟩
     · simp [specStep, candA, candAAAA, candCNAME, candPTR, n1, n28, n5, n12, insOpt]
-    · simp [specStep, candA, candAAAA, candCNAME, candPTR, h12, hv6, insOpt]
+    · have hp : candPTR ip6 m r = none := by
+        unfold candPTR
+        rw [if_pos h12]
+        cases hq : parsePtrIP ip6 (trimSuffix r.name inAddrArpa) with
+        | invalid => rfl
+        | v6 => rfl
+        | v4 a b c d => exact absurd hq (hnv4 a b c d)
+      simp [specStep, candA, candAAAA, candCNAME, hp, h12, insOpt]
   rw [hs]; simp
 
 end PV.Lemmas.Dns
